@@ -157,7 +157,7 @@ def reorder(rng, xml_text):
 
 def gen(rng, tier):
     cases = []
-    n = 25 if tier == "quick" else 600
+    n = 50 if tier == "quick" else 600
     for i in range(n):
         doc = xmlgen.to_xml_loadable(defgen.rnd_definition(rng))
         xml = xmlgen.document_xml(doc, NS)
